@@ -178,7 +178,9 @@ func (o ixObs) set(c, i, v string) {
 	o[c][i] = v
 }
 
-var ixComponents = []string{"fields", "match", "terms", "counts", "string-counts", "min", "max", "range", "numbers"}
+var ixUniverseFields = []string{"x", "y.z"}
+
+var ixComponents = []string{"unregistered", "fields", "match", "terms", "counts", "string-counts", "min", "max", "range", "numbers"}
 
 func fmtTerm(v any) string {
 	switch x := v.(type) {
@@ -199,6 +201,15 @@ func ixScan(fields map[string]bool, view func(f string) map[string]any) ixObs {
 	}
 	sort.Strings(fl)
 	o.set("fields", "list", strings.Join(fl, ","))
+	// a field that is not registered (never was, or was removed) has no index: nothing matches, no terms
+	for _, f := range ixUniverseFields {
+		if !fields[f] {
+			for _, t := range ixTerms[f] {
+				o.set("unregistered", f+"="+fmtTerm(t), "")
+			}
+			o.set("unregistered", f+":terms", "")
+		}
+	}
 	for _, f := range fl {
 		vals := view(f)
 		for _, t := range ixTerms[f] {
@@ -294,6 +305,25 @@ func ixObserve(idx *kvindex.KVIndex, fields map[string]bool) (o ixObs, problem s
 		}
 		sort.Strings(reg)
 		ctx := context.Background()
+		for _, f := range ixUniverseFields {
+			if fields[f] {
+				continue
+			}
+			for _, t := range ixTerms[f] {
+				var ids []string
+				for d := range idx.GetTermMatch(ctx, f, t, 0) {
+					ids = append(ids, d)
+				}
+				sort.Strings(ids)
+				r.o.set("unregistered", f+"="+fmtTerm(t), strings.Join(ids, ","))
+			}
+			var tk []string
+			for t := range idx.FieldTerms(f) {
+				tk = append(tk, fmtTerm(t))
+			}
+			sort.Strings(tk)
+			r.o.set("unregistered", f+":terms", strings.Join(tk, ","))
+		}
 		for _, f := range reg {
 			for _, t := range ixTerms[f] {
 				var ids []string
@@ -560,7 +590,7 @@ func C09(tier string) int {
 	}
 	run.Coverage["samples"] = samples
 	run.Assume = []string{
-		"oracle = brute-force scan of the live documents for every registered field; queries on unregistered fields are not observed",
+		"oracle = brute-force scan of the live documents for every registered field; a field that is not registered must match nothing and list no terms (its other queries are not observed)",
 		"range queries are probed only at bounds that are not themselves term values (the inclusive/exclusive convention is not documented)",
 		"minimum/maximum are compared only when the field has at least one numeric value",
 		"universe: fields x, y.z; documents d1,d11 (one id a prefix of the other); terms a,ab (prefix-related),-1.5,0,2,1e9 / a,3",
